@@ -135,7 +135,7 @@ Print Assumptions C17_logbook_aligned_partial.
 
 (* --- non-vacuity ---------------------------------------------------------------------------------------------- *)
 Definition exP : params :=
-  mkparams 2 (1, 2) (1, 2) (1, 4) [1] 0
+  mkparams 2 (1, 2) (1, 2) (1, 4) [1] 0 5 3
     [3000000000; 1; 7; 2; 9; 4; 100; 3; 4000000000; 5; 6; 1000000000; 8; 2000000000; 11; 3; 3500000000; 2; 1; 0;
      12; 500000000; 9; 7; 4100000000; 5; 3; 1; 2; 8; 1200000000; 6; 4; 2; 900000000; 10; 1; 3; 5; 7].
 Definition exS : state := init_state [[true; false; false]; [false; true; true]; [false; false; false]; [true; true; false]] 2.
@@ -148,6 +148,14 @@ Example C17_example_resume :
   Z.of_nat (length (save s1)) > 60 /\
   option_map (run (step exP serial) [GGen 2; GGen 3]) (restore (save s1))
   = Some (run (step exP serial) (gens_upto 3) exS).
+Proof. vm_compute. repeat split; reflexivity. Qed.
+
+(* the same for the (mu+lambda) and (mu,lambda) shapes (algorithms.varOr), resumed after a varOr generation *)
+Example C17_example_resume_varor :
+  let s1 := run (step exP serial) [GInit; GPlus 1] exS in
+  length (st_pop s1) = 3%nat /\ 0 < st_cur s1 /\
+  option_map (run (step exP serial) [GComma 2; GPlus 3]) (restore (save s1))
+  = Some (run (step exP serial) [GInit; GPlus 1; GComma 2; GPlus 3] exS).
 Proof. vm_compute. repeat split; reflexivity. Qed.
 
 (* a schedule that is not the submission order; gathering in completion order would be wrong *)
